@@ -5,7 +5,7 @@
    Prometheus meaning of the matchers.  Executable definitions only. *)
 From Coq Require Import List ZArith NArith String Ascii Bool.
 From Qryn Require Import lib.Strs model.Sql model.SqlRender model.Logql model.LogqlPlan
-  model.PromSelect model.PromSel model.PromSem.
+  model.PromSelect model.PromSel model.PromSem model.ProfSel model.ProfSem.
 Import ListNotations.
 Open Scope string_scope.
 
@@ -93,3 +93,63 @@ Definition sem_verdict (c : semcase) : Z :=
 
 (* the Select loop's model decision for MapResult *)
 Definition querier_mr (cluster : bool) (h : hints) (ms : list matcher) : bool := snd (querier_transpile cluster "qryn" h ms).
+
+(* ====================== profile selectors ====================== *)
+(* a stored profile series on one day: the attributes behind the pseudo labels, and its labels *)
+Record pstored := { p_fp : N; p_date : Z; p_type_id : string; p_service : string; p_stu : list (string * string); p_labels : labels }.
+Definition pgin_of (series : list pstored) : list pginrow :=
+  flat_map (fun s => map (fun kv => {| pg_date := p_date s; pg_key := fst kv; pg_val := snd kv; pg_fp := p_fp s;
+                                       pg_type_id := p_type_id s; pg_service := p_service s; pg_stu := p_stu s |}) (p_labels s)) series.
+
+Section PSPEC.
+  Variable re_full : string -> string -> bool.
+  (* Pyroscope meaning, at the granularity the statement works at (one stored series = one fingerprint x
+     profile type x day): a pseudo label is read from the series' type id / sample types / service name,
+     any other name from its labels (absent = "") *)
+  Definition sel_matches (sel : selector) (s : pstored) : bool :=
+    match pseudo_of (sl_name sel) with
+    | Some p => pseudo_ok re_full p (sl_op sel) (sl_val sel) (split_char ":" (p_type_id s) "") (p_service s) (p_stu s)
+    | None => prom_match_val re_full (sl_op sel) (sl_val sel) (label_value (p_labels s) (sl_name sel))
+    end.
+  Definition prof_expected (D1 D2 : Z) (sels : list selector) (series : list pstored) : list N :=
+    nodup N.eq_dec (map p_fp (filter (fun s => (D1 <=? p_date s)%Z && (p_date s <=? D2)%Z && forallb (fun sel => sel_matches sel s) sels) series)).
+End PSPEC.
+
+Record psemcase := {
+  pe_id : Z; pe_cluster : bool; pe_table : string; pe_from_ns : Z; pe_to_ns : Z; pe_sels : list selector;
+  pe_series : list pstored; pe_impl : select; pe_text : string;
+  pe_search : list (string * string * bool); pe_full : list (string * string * bool)
+}.
+Definition sortN (l : list N) : list N := isort N.ltb l.
+Definition kv_count (sels : list selector) : nat :=
+  List.length (filter (fun s => match pseudo_of (sl_name s) with None => true | Some _ => false end) sels).
+Definition prof_absent_case (re_full : string -> string -> bool) (sels : list selector) (series : list pstored) : bool :=
+  existsb (fun sel => match pseudo_of (sl_name sel) with
+                      | Some _ => false
+                      | None => prom_match_val re_full (sl_op sel) (sl_val sel) "" &&
+                                existsb (fun s => negb (has_label (p_labels s) (sl_name sel))) series
+                      end) sels.
+
+(* verdict codes as for sem_verdict; 9 = the list-function reading disagrees with the interpreter on the model tree *)
+Definition psem_verdict (c : psemcase) : Z :=
+  let search := tbl_lookup (pe_search c) in
+  let full := tbl_lookup (pe_full c) in
+  let rows := pgin_of (pe_series c) in
+  let D1 := from_day (pe_from_ns c) in
+  let D2 := (pe_to_ns c / (86400 * 1000000000))%Z in
+  match render (pe_impl c) (pe_cluster c) with
+  | None => 1
+  | Some t =>
+    if negb (String.eqb t (pe_text c)) then 1 else
+    if fpq_undefined search no_cte (pe_impl c) (map pgin_env rows) then 2 else
+    let impl := sortN (eval_prof_sel search (pe_impl c) rows) in
+    let model := sortN (eval_prof_sel search (prof_selector (pe_table c) (pe_from_ns c) (pe_to_ns c) (pe_sels c)) rows) in
+    let reading := sortN (prof_fp_sel search D1 D2 (map prof_selector_val (pe_sels c)) rows) in
+    let expected := sortN (prof_expected full D1 D2 (pe_sels c) (pe_series c)) in
+    if negb (list_eqb N.eqb impl expected) then
+      (if Nat.ltb 8 (kv_count (pe_sels c)) then 7
+       else if prof_absent_case full (pe_sels c) (pe_series c) then 5 else 4)
+    else if negb (list_eqb N.eqb impl model) then 3
+    else if negb (list_eqb N.eqb model reading) then 9
+    else 0
+  end%Z.
